@@ -109,7 +109,7 @@ Fixpoint reachable (grants : list grant_cfg) (remaining : Z) : Z :=
   end.
 
 (* the distribution loop with its running share index *)
-Fixpoint distribute (grants : list grant_cfg) (shares : list share) : list (grant_cfg * list share) :=
+Fixpoint distribute {A : Type} (grants : list grant_cfg) (shares : list A) : list (grant_cfg * list A) :=
   match grants with
   | [] => []
   | gc :: gs =>
